@@ -489,7 +489,12 @@ impl Run {
         }
         if let Some(obj) = coverage.as_object_mut() {
             if !obj.contains_key("samples") {
-                let s = self.samples.lock().unwrap().clone();
+                let mut s = self.samples.lock().unwrap().clone();
+                if s.is_empty() && nviol > 0 {
+                    // a run that found violations before any sample was recorded: the violations
+                    // are the samples (a machinery exit here would hide a verdict)
+                    s = self.violations.lock().unwrap().iter().take(8).map(|(k, w)| json!({"violating_case": k, "what": w})).collect();
+                }
                 if s.is_empty() {
                     eprintln!("MACHINERY ERROR: check {} recorded no sample case for its evidence", self.id);
                     std::process::exit(3);
